@@ -79,7 +79,7 @@ def run_batch(cases, geom, workdir):
     results = [None] * len(cases)
     todo = list(range(len(cases)))
     env = dict(os.environ)
-    env["PYTHONPATH"] = px.VERIF + os.pathsep + env.get("PYTHONPATH", "")
+    env["PYTHONPATH"] = px.REPO + os.pathsep + px.VERIF + os.pathsep + env.get("PYTHONPATH", "")
     while todo:
         fd, pin = tempfile.mkstemp(suffix=".json", dir=workdir)
         os.close(fd)
